@@ -194,8 +194,8 @@ def run(chk, tier, only_crate=None):
                 fn = crate.bodies[key]["def"]
                 if fn in EXCLUDED_ROOTS:
                     continue
-                if config == "jitter-std" and not ("new" in key.split("::")[-1] or "get_nstime" in key):
-                    continue  # the std configuration only adds new() and the platform timer
+                # (every root is evaluated again with all of rand_jitter's features on: the logging macros, and whatever a new
+                # feature gates, expand to code only there)
                 runs = []
                 try:
                     runs.append(eval_root(crate, key))
